@@ -53,10 +53,19 @@ def write_source(root, pkg, version):
     p = os.path.join(d, 'mod.py')
     with open(p, 'w') as f:
         f.write(MODULE % version)
+    dv = os.path.join(d, 'vend')                 # a sub-package that some configurations skip
+    os.makedirs(dv, exist_ok=True)
+    with open(os.path.join(dv, '__init__.py'), 'w') as f:
+        f.write('')
+    pv = os.path.join(dv, 'mod.py')
+    with open(pv, 'w') as f:
+        f.write(MODULE % version)
     with open(os.path.join(d, 'bad.py'), 'w') as f:
         f.write('def (:\n')                  # never compiles; imported only by the runs that say so, inside try/except
     t = 1_600_000_000 + 100 * version
     os.utime(p, (t, t))
+    os.utime(pv, (t, t))
+    os.utime(os.path.join(dv, '__init__.py'), (1_600_000_000, 1_600_000_000))
     os.utime(os.path.join(d, '__init__.py'), (1_600_000_000, 1_600_000_000))
 
 
@@ -104,6 +113,30 @@ def run_multi(workdir, idx, seq):
         out.append(run_process(root, spec))
     shutil.rmtree(root, ignore_errors=True)
     return out
+
+
+def run_skip(workdir, idx, seq):
+    """seq: list of {'hook': None | {..., 'skip': bool}, 'version': n}: the package and its vendored sub-package imported in every run"""
+    root = os.path.join(workdir, f'skip{idx}')
+    shutil.rmtree(root, ignore_errors=True)
+    os.makedirs(root)
+    out, cur = [], None
+    for r in seq:
+        if r['version'] != cur:
+            write_source(root, 'c16pkg', r['version'])
+            cur = r['version']
+        out.append(run_process(root, {'hook': r['hook'], 'pkg': 'c16pkg', 'pkgs': ['c16pkg', 'c16pkg.vend']}))
+    shutil.rmtree(root, ignore_errors=True)
+    return out
+
+
+def gen_skip(rng):
+    seq, version = [], 1
+    for _ in range(rng.randint(2, 4)):
+        if rng.random() < 0.2:
+            version += 1
+        seq.append({'hook': None if rng.random() < 0.25 else {'pep526': True, 'violation': None, 'skip': rng.random() < 0.5}, 'version': version})
+    return seq
 
 
 def gen_multi(rng):
@@ -257,6 +290,31 @@ def run(ctx):
             failures += 1
             seq, os_ = index[si * shard + j]
             ctx.report({'clause': 'correspondence'}, {'runs': seq, 'observed': os_}, 'the cache model (C16/Cache.v runs) and the interpreter runs disagree')
+    # a sub-package skipped by some configurations and not by others: its modules are cached as what they are in each run
+    hk_s = {'pep526': True, 'violation': None, 'skip': True}
+    hk_n = {'pep526': True, 'violation': None, 'skip': False}
+    sseqs = [[{'hook': hk_s, 'version': 1}, {'hook': hk_n, 'version': 1}], [{'hook': hk_n, 'version': 1}, {'hook': hk_s, 'version': 1}],
+             [{'hook': None, 'version': 1}, {'hook': hk_s, 'version': 1}, {'hook': hk_n, 'version': 1}, {'hook': None, 'version': 1}]]
+    sseqs += [gen_skip(ctx.rng) for _ in range({'quick': 8, 'thorough': 200}[ctx.tier])]
+    with ThreadPoolExecutor(max_workers=12) as ex:
+        sobs = list(ex.map(lambda t: run_skip(ctx.workdir, t[0], t[1]), enumerate(sseqs)))
+    for seq, os_ in zip(sseqs, sobs):
+        ctx.case(['skip', seq], True)
+        ctx.evaluations += 2 * len(seq) - 1
+        ctx.count('skipped_subpackage')
+        if any('crash' in o for o in os_):
+            failures += 1
+            ctx.report({'clause': 'run_crashed'}, {'runs': seq, 'observed': os_}, 'an interpreter run crashed')
+            continue
+        for i, (r, o) in enumerate(zip(seq, os_)):
+            want = {'c16pkg': r['hook'] is not None, 'c16pkg.vend': r['hook'] is not None and not r['hook'].get('skip')}
+            bad = [p_ for p_ in want if 'import_error' in o['obs_multi'][p_] or o['obs_multi'][p_].get('func_checked') != want[p_] or
+                   o['obs_multi'][p_].get('version') != r['version']]
+            if bad:
+                failures += 1
+                ctx.report({'clause': 'mixed_skipped_subpackage', 'package': bad[0]}, {'runs': seq, 'index': i, 'observed': [x.get('obs_multi') for x in os_]},
+                           'with a sub-package skipped in some runs and hooked in others a module was loaded from the wrong cache')
+                break
     # two packages hooked independently, both imported in every run (the patched global must not outlive one import)
     mseqs = [[{'hooks': {'c16pkg': {'pep526': True, 'violation': None}, 'c16oth': None}, 'version': 1}] * 2 +
              [{'hooks': {'c16pkg': {'pep526': True, 'violation': None}, 'c16oth': {'pep526': True, 'violation': None}}, 'version': 1}],
